@@ -571,6 +571,9 @@ class Interp:
             if t is Ref and p[2] == 0:
                 # NonNull/Unique wrappers around a pointer
                 return lst, i
+            if t is Opaque and v.kind == 'LocatedSpan':
+                # nom_locate::LocatedSpan { offset, line, fragment, extra }: only `extra` is a public field
+                return v.data.setdefault('_fields', [v.data.get('off'), v.data.get('line'), None, Struct('SpanInfo', [])]), p[2]
             if t is VecV or t is StringV or t is Opaque or t is PathV:
                 raise Inconclusive('field projection into std container %s' % type(v).__name__)
             raise Inconclusive('field projection on %r' % (v,))
